@@ -903,3 +903,10 @@ M("C11.period_day_before_month", ["C11"], "emitter/file/src/lib.rs",
             parts.years, parts.months, parts.days,""",
   """            "{:>04}-{:>02}-{:>02}",
             parts.years, parts.days, parts.months,""", "C11.R10")
+M("C15.traceparent_absent_span_id_short", ["C15"], "traceparent/src/lib.rs",
+  '            f.write_str("0000000000000000-")?;', '            f.write_str("000000000000000-")?;', "C15.R4:traceparent-writer")
+M("C15.traceparent_ids_swapped_in_display", ["C15"], "traceparent/src/lib.rs",
+  """        if let Some(span_id) = self.span_id {
+            fmt::Display::fmt(&span_id, f)?;""",
+  """        if let Some(span_id) = self.span_id {
+            fmt::Display::fmt(&self.trace_flags, f)?;""", "C15.R4:traceparent-writer")
